@@ -3,6 +3,7 @@
 Z3 = "cspuz/backend/z3.py"
 ARR = "cspuz/array.py"
 SOLV = "cspuz/solver.py"
+SUGAR = "cspuz/backend/sugar_like.py"
 
 MUTANTS = {
     "C13": [
@@ -22,5 +23,16 @@ MUTANTS = {
         ("rsub operand order", [("cspuz/expr.py", "return _make_int_expr(Op.SUB, [other, self])", "return _make_int_expr(Op.SUB, [self, other])")]),
         ("count_true drops literal True", [("cspuz/constraints.py", "            if x is True:\n                constant += 1", "            if x is True:\n                constant += 0")]),
         ("solver forgets constraints posted after first solve", [(SOLV, "        csp_solver.add_constraint(self.constraints)\n        return csp_solver.solve()", "        if not hasattr(self, '_n'):\n            self._n = len(self.constraints)\n        csp_solver.add_constraint(self.constraints[: self._n])\n        return csp_solver.solve()")]),
+    ],
+    "C02": [
+        ("loop demotes on == instead of !=", [(SOLV, "and answer[i] != self.variables[i].sol", "and answer[i] == self.variables[i].sol")]),
+        ("loop never demotes", [(SOLV, "                    answer[i] = None", "                    pass")]),
+        ("loop stops after one refinement", [(SOLV, "                    answer[i] = None\n", "                    answer[i] = None\n            break\n")]),
+        ("refuting clause uses ==", [(SOLV, "difference_cond.append(self.variables[i] != a)", "difference_cond.append(self.variables[i] == a)")]),
+        ("loop only refines bool keys", [(SOLV, "if self.is_answer_key[i] and a is not None:", "if self.is_answer_key[i] and a is not None and isinstance(a, bool):")]),
+        ("deduction reply: false parsed as True", [(SUGAR, "            var, val = line.split(\" \")\n            if val == \"true\":\n                converted_val = True\n            elif val == \"false\":\n                converted_val = False", "            var, val = line.split(\" \")\n            if val == \"true\":\n                converted_val = True\n            elif val == \"false\":\n                converted_val = True")]),
+        ("deduction: first key not announced", [(SUGAR, "            if is_answer_key[i]:\n                if isinstance(self.variables[i], BoolVar):", "            if is_answer_key[i] and i > 0:\n                if isinstance(self.variables[i], BoolVar):")]),
+        ("deduction: unsat not recognised", [(SUGAR, 'if "unsat" in out[0]:', 'if "unsat " in out[0]:')]),
+        ("solve(): sol of keys not written back", [(SOLV, "                self.variables[i].sol = answer[i]\n        return True", "                pass\n        return True")]),
     ],
 }
